@@ -343,6 +343,11 @@ func loadCorpus() {
 		return
 	}
 	c14Corpus = append(c14Corpus, c14Targeted...)
+	for gi := 0; gi < 24; gi++ {
+		gs := uint64(1000 + gi*37)
+		src := genFunctions(gs, 2) + "fn main() { for i in 0..6 { println(\"g\", e0(i), e1(i + 1)); } }\n"
+		c14Corpus = append(c14Corpus, c14Prog{fmt.Sprintf("generated-%d", gs), Single(src)})
+	}
 	root := os.Getenv("SIMCHECK_REPO")
 	if root == "" {
 		root = "/repo"
